@@ -6,7 +6,7 @@
 #![allow(dead_code)]
 use super::*;
 use crate::kv::*;
-use crate::{kv_cover, kv_end};
+use crate::{kv_assert, kv_cover, kv_end};
 
 /// any G6 set of exactly k stops for a terminal `width` columns wide
 pub(crate) fn any_tabs(k: usize, width: usize) -> Tabs {
@@ -45,7 +45,7 @@ fn assert_sorted(t: &Tabs, what: &'static str) {
     if n >= 2 {
         let j = any_usize();
         assume(j < n - 1);
-        assert!(t.0[j] < t.0[j + 1], "[C18] tab stops stay strictly increasing");
+        kv_assert!(t.0[j] < t.0[j + 1], "[C18] tab stops stay strictly increasing");
     }
     let _ = what;
 }
@@ -56,7 +56,7 @@ fn assert_g6(t: &Tabs, width: usize) {
     if n >= 1 {
         let j = any_usize();
         assume(j < n);
-        assert!(t.0[j] >= 1 && t.0[j] < width, "[C18] every stop lies inside the screen, right of column 0");
+        kv_assert!(t.0[j] >= 1 && t.0[j] < width, "[C18] every stop lies inside the screen, right of column 0");
     }
 }
 
@@ -65,7 +65,7 @@ pub(crate) fn t_tb_new(max_w: usize) {
     let w = any_in(1, max_w);
     let t = Tabs::new(w);
     let probe = any_in(0, max_w + 8);
-    assert!(
+    kv_assert!(
         member(&t, probe) == (probe >= 8 && probe < w && probe % 8 == 0),
         "[C18] default stops are exactly every 8th column"
     );
@@ -89,9 +89,9 @@ pub(crate) fn t_tb_expand(k: usize, max_a: usize, max_grow: usize) {
     t.expand(a, b);
     let after = member(&t, probe);
     if probe < a {
-        assert!(after == before, "[C18] widening keeps every surviving stop and invents none in old columns");
+        kv_assert!(after == before, "[C18] widening keeps every surviving stop and invents none in old columns");
     } else {
-        assert!(
+        kv_assert!(
             after == (probe < b && probe % 8 == 0),
             "[C18] widening adds exactly the default stops of the newly exposed columns"
         );
@@ -117,11 +117,11 @@ pub(crate) fn t_tb_contract(k: usize, max_a: usize) {
     let old_j = t.0[j];
     t.contract(b);
     let after = member(&t, probe);
-    assert!(after == (before && probe < b), "[C18] narrowing discards exactly the stops of the lost columns");
+    kv_assert!(after == (before && probe < b), "[C18] narrowing discards exactly the stops of the lost columns");
     if j < t.0.len() {
-        assert!(t.0[j] == old_j, "[C18] narrowing keeps the surviving stops in place");
+        kv_assert!(t.0[j] == old_j, "[C18] narrowing keeps the surviving stops in place");
     } else {
-        assert!(old_j >= b, "[C18] narrowing only removes stops of lost columns");
+        kv_assert!(old_j >= b, "[C18] narrowing only removes stops of lost columns");
     }
     assert_g6(&t, b);
     kv_cover!(t.0.len() < k, "a stop was dropped");
@@ -143,7 +143,7 @@ pub(crate) fn t_tb_edit(k: usize, max_w: usize, op: u8) {
         0 => {
             assume(pos >= 1 && pos < w);
             t.set(pos);
-            assert!(
+            kv_assert!(
                 member(&t, probe) == (before || probe == pos),
                 "[C18] HTS/CTC set exactly the stop at the cursor column"
             );
@@ -151,7 +151,7 @@ pub(crate) fn t_tb_edit(k: usize, max_w: usize, op: u8) {
         }
         1 => {
             t.unset(pos);
-            assert!(
+            kv_assert!(
                 member(&t, probe) == (before && probe != pos),
                 "[C18] TBC/CTC clear exactly the stop at the cursor column"
             );
@@ -159,7 +159,7 @@ pub(crate) fn t_tb_edit(k: usize, max_w: usize, op: u8) {
         }
         _ => {
             t.clear();
-            assert!(!member(&t, probe), "[C18] clearing all stops leaves none");
+            kv_assert!(!member(&t, probe), "[C18] clearing all stops leaves none");
         }
     }
     assert_g6(&t, w);
@@ -186,18 +186,18 @@ pub(crate) fn t_tb_move(k: usize, max_w: usize, forward: bool) {
     }
     match got {
         None => {
-            assert!(beyond < n, "[C18] no stop is reported only when fewer than n stops lie in that direction");
+            kv_assert!(beyond < n, "[C18] no stop is reported only when fewer than n stops lie in that direction");
         }
         Some(s) => {
-            assert!(member(&t, s), "[C18] the reported stop is a stop");
-            assert!(if forward { s > pos } else { s < pos }, "[C18] the reported stop lies in the asked direction");
+            kv_assert!(member(&t, s), "[C18] the reported stop is a stop");
+            kv_assert!(if forward { s > pos } else { s < pos }, "[C18] the reported stop lies in the asked direction");
             let mut between = 0usize;
             for x in t.0.iter() {
                 if (forward && *x > pos && *x < s) || (!forward && *x < pos && *x > s) {
                     between += 1;
                 }
             }
-            assert!(between == n - 1, "[C18] the reported stop is the n-th one in that direction");
+            kv_assert!(between == n - 1, "[C18] the reported stop is the n-th one in that direction");
         }
     }
     kv_cover!(got.is_none() && k > 0, "ran past the last stop");
@@ -217,9 +217,9 @@ pub(crate) fn t_tb_chain(a: usize, b: usize, c: usize) {
         }
     }
     let f = Tabs::new(c);
-    assert!(t.0.len() == f.0.len(), "[C18] a never-customised set equals a fresh one after resizes");
+    kv_assert!(t.0.len() == f.0.len(), "[C18] a never-customised set equals a fresh one after resizes");
     let probe = any_in(0, c + 8);
-    assert!(member(&t, probe) == member(&f, probe), "[C18] a never-customised set equals a fresh one after resizes");
+    kv_assert!(member(&t, probe) == member(&f, probe), "[C18] a never-customised set equals a fresh one after resizes");
     kv_end!();
     std::mem::forget(t);
     std::mem::forget(f);
